@@ -17,7 +17,7 @@ def gen_cases(rng, n):
         r = rng.random()
         if r < 0.12:
             cases.append(drv.gen_case(rng, circuit_friendly=True))
-        elif r < 0.17:
+        elif r < 0.2:
             cases.append(drv.gen_cumulative_wide(rng))
         else:
             cases.append(drv.gen_case(rng))
